@@ -4,6 +4,7 @@ CONSTANTS
   MaxPow = 30
   Families = {"writer"}
   Big = FALSE
+  SweepSet <- SweepQ
   WSizes <- WMenuQ
   WNames = {0, 7}
   WMaxLen = 3
